@@ -105,7 +105,7 @@ def canon(v):
         return str(v)
 
 
-def measure(pipeline, n):
+def measure(pipeline, n, limit=10):
     src = Source()
     L = LazyList(src, isinf=True)
     a, b = 1, 0
@@ -113,7 +113,7 @@ def measure(pipeline, n):
         f, (a2, b2), _ = cat()[name]
         L = f(L)
         a, b = a * a2, a * b2 + b       # bound_compose: p1(p2(n)) <= a1*a2*n + a1*b2 + b1  (outer stage last)
-    with alarm(10):
+    with alarm(limit):
         out = [L[i] for i in range(n)] if not isinstance(L, list) else L[:n]
     return out, src.pulls, (a, b)
 
@@ -121,9 +121,14 @@ def measure(pipeline, n):
 def o_lazy(inp):
     pipeline, n = inp["pipeline"], inp["n"]
     try:
-        out, pulls, (a, b) = measure(pipeline, n)
+        try:
+            out, pulls, (a, b) = measure(pipeline, n)
+        except Timeout:
+            # a busy machine can stall a worker: believed only if it does not arrive within a minute either (the source's own
+            # budget of 20000 pulls ends a real runaway long before that)
+            out, pulls, (a, b) = measure(pipeline, n, limit=60)
     except Timeout:
-        return False, f"the first {n} items of {' | '.join(pipeline)} did not arrive within 10 s"
+        return False, f"the first {n} items of {' | '.join(pipeline)} did not arrive within 60 s (after not arriving within 10 s)"
     except RuntimeError as ex:
         return False, f"the first {n} items of {' | '.join(pipeline)} pulled more than 20000 source items ({ex})"
     # composed bound: inner stage first in the list
